@@ -467,10 +467,19 @@ func init() {
 	// ----- gluon async.QueuedChannel: the forwarding goroutine is not started; Enqueue delivers straight into the
 	// (unbounded) channel, i.e. the queue is modelled as the FIFO, loss-free pipe it is specified to be -----
 	reg("github.com/ProtonMail/gluon/async.GoAnnotated", func(e *Exec, c *frame, fn *ssa.Function, a []Value) Value {
+		if e.P.cfg.Goroutines {
+			// GoAnnotated(ctx, panicHandler, fn, labels) runs fn(ctx) in a new goroutine (pprof labels and the panic
+			// handler are not modelled: an uncaught panic of the goroutine is a violation)
+			e.spawn(token.NoPos, a[2], []Value{a[0]})
+			return nil
+		}
 		e.intrHit["async.GoAnnotated-not-started"]++
 		return nil
 	})
 	reg("(*github.com/ProtonMail/gluon/async.QueuedChannel[T]).Enqueue", func(e *Exec, c *frame, fn *ssa.Function, a []Value) Value {
+		if e.P.cfg.Goroutines {
+			return e.runFunc(c, fn, e.P.info(fn), a, nil) // the real code
+		}
 		e.intrHit["QueuedChannel.Enqueue-direct"]++
 		q := (*e.deref(c, a[0])).(Struct)
 		if closed := q[4].(Struct)[0].(Sc); closed.T != nil || closed.C != 0 {
@@ -989,7 +998,7 @@ func init() {
 			e.rtPanic("nil mutex")
 		}
 		if e.locks[p] != 0 {
-			panic(pathEnd{endBlocked, "Lock of a held mutex (single goroutine): " + fn.String()})
+			e.blockUntil(func() bool { return e.locks[p] == 0 }, "Lock of a held mutex: "+fn.String())
 		}
 		e.locks[p] = -1
 		e.journalUndo(func() { delete(e.locks, p) })
@@ -1020,7 +1029,7 @@ func init() {
 	reg("(*sync.RWMutex).RLock", func(e *Exec, c *frame, fn *ssa.Function, a []Value) Value {
 		p := a[0].(*Value)
 		if e.locks[p] == -1 {
-			panic(pathEnd{endBlocked, "RLock of a write-held RWMutex (single goroutine)"})
+			e.blockUntil(func() bool { return e.locks[p] != -1 }, "RLock of a write-held RWMutex")
 		}
 		old := e.locks[p]
 		e.locks[p] = old + 1
@@ -1062,10 +1071,42 @@ func init() {
 	reg("(*sync.WaitGroup).Wait", func(e *Exec, c *frame, fn *ssa.Function, a []Value) Value {
 		p := a[0].(*Value)
 		if e.locks[p] != 0 {
-			panic(pathEnd{endBlocked, "WaitGroup.Wait with non-zero counter (single goroutine)"})
+			e.blockUntil(func() bool { return e.locks[p] == 0 }, "WaitGroup.Wait with non-zero counter")
 		}
 		return nil
 	})
+	// sync.Cond (goroutine model only): Wait releases L, parks until the next Signal/Broadcast, re-acquires L.
+	// Signal wakes every waiter (allowed: callers must re-check their condition in a loop).
+	condL := func(e *Exec, c *frame, a []Value) *Value {
+		st := (*e.deref(c, a[0])).(Struct)
+		for _, f := range st {
+			if it, ok := f.(Iface); ok && it.t != nil {
+				if p, ok := it.v.(*Value); ok {
+					return p
+				}
+			}
+		}
+		e.unsupported("sync.Cond with an L that is not a pointer to a mutex")
+		return nil
+	}
+	reg("(*sync.Cond).Wait", func(e *Exec, c *frame, fn *ssa.Function, a []Value) Value {
+		p := a[0].(*Value)
+		l := condL(e, c, a)
+		unlock(e, c, fn, []Value{l})
+		gen := e.condGen[p]
+		e.blockUntil(func() bool { return e.condGen[p] != gen }, "Cond.Wait")
+		lock(e, c, fn, []Value{l})
+		return nil
+	})
+	wake := func(e *Exec, c *frame, fn *ssa.Function, a []Value) Value {
+		p := a[0].(*Value)
+		old := e.condGen[p]
+		e.condGen[p] = old + 1
+		e.journalUndo(func() { e.condGen[p] = old })
+		return nil
+	}
+	reg("(*sync.Cond).Broadcast", wake)
+	reg("(*sync.Cond).Signal", wake)
 	reg("(*sync.Once).Do", func(e *Exec, c *frame, fn *ssa.Function, a []Value) Value {
 		p := a[0].(*Value)
 		if e.locks[p] != 0 {
